@@ -96,6 +96,7 @@ class LineInjector:
 
     def __init__(self, target):
         self.target = target
+        self.files = []
         self.count = 0
         self.fired = 0
         self.where = None
@@ -106,6 +107,8 @@ class LineInjector:
         if event == 'line':
             n = self.count
             self.count += 1
+            if self.target is None:
+                self.files.append(os.path.basename(frame.f_code.co_filename))
             if self.target is not None and n == self.target:
                 self.fired += 1
                 self.where = f'{os.path.relpath(frame.f_code.co_filename, self.prefix)}:{frame.f_lineno} ({frame.f_code.co_name})'
@@ -151,19 +154,25 @@ def stage_lines(report, tier, rng, dist, runner):
         case['max_workers'] = 2
         if ci == 1:
             case['cont'] = False
+        if runner == 'serial':
+            case['storage'] = 'local'
+            case['types'] = [0 if ci % 2 == 0 else t for t in case['types']]     # caching types: the save path is exercised
         _, inj = run_lines(case, None, runner)
         total = inj.count
+        save_path = [i for i, f in enumerate(inj.files) if f in ('cache.py', 'storage.py', 'base.py')]
         dist[f'{runner}_line_events'] += total
         if runner == 'serial' and tier == 'thorough':
             targets = list(range(total))
         else:
             k = {('serial', 'quick'): 90, ('l2', 'quick'): 40, ('l2', 'thorough'): 400}[(runner, tier)]
-            targets = sorted(rng.sample(range(total), min(total, k)))
+            targets = sorted(set(rng.sample(range(total), min(total, k)) + (rng.sample(save_path, min(len(save_path), 60)) if runner == 'serial' else [])))
         for tgt in targets:
             obs, inj = run_lines(case, tgt, runner)
             runs += 1
             dist[f"{runner}_line_outcome={obs['outcome']}"] += 1
             v = monitor_interrupted(obs, inj.fired, f'interrupt at {inj.where} under the {runner} runner')
+            if v is None and inj.fired == 1 and obs.get('unloadable'):
+                v = ('cache-inconsistent', f"after an interrupt at {inj.where} tasks {obs['unloadable']} are reported cached but cannot be loaded")
             if v is not None:
                 report.violation(f'C14:{v[0]}@{(inj.where or "?").split(" ")[0].split(":")[0]}', v[1], dict(case=case, line_event=tgt, where=inj.where, runner=runner, level='line'))
     return runs
